@@ -70,7 +70,7 @@ theorem get_join_indices_code (truth : Term → Bool) :
     DataFrame_get_join_indices truth =
       let keysOf (frame byv : String) := Term.app "zip" [Term.app "*" [Term.app "ListComp"
         [Term.app "getitem" [Term.sym frame, Term.sym "x"], Term.app "in" [Term.sym "x", Term.sym byv, Term.app "if" []]]]]
-      let otherIds := Term.app "list" [keysOf "other" "by2"]
+      let otherIds := Term.app "list()" [keysOf "other" "by2"]
       let byId := Term.app "DictComp" [Term.app "pair" [Term.app "getitem" [otherIds, Term.sym "i"], Term.sym "i"],
         Term.app "in" [Term.sym "i", Term.app "range" [Term.app ".nrow" [Term.sym "other"]], Term.app "if" []]]
       let srcv := Term.app "np.fromiter" [Term.app "map" [Term.app "lambda" [Term.app "params" [Term.sym "x"],
